@@ -71,6 +71,7 @@ func Explore(bound int, run func(c *Chooser)) (execs, points int64) {
 		c.Reset(prefix)
 		run(&c)
 		execs++
+		Progress.Add(1)
 		if len(c.Cs) < len(prefix) {
 			panic(ReplayDivergence{fmt.Sprintf("execution met %d points, prefix has %d", len(c.Cs), len(prefix))})
 		}
